@@ -36,6 +36,9 @@ Definition dec_op (l : list Z) : option op * list Z :=
   | 10 :: p :: a :: b :: c :: d :: e :: f :: g :: rest =>
       let '(vs, r) := take_list rest in (Some (OPreemptFilter p (mkRaw a b c d e f g) vs), r)
   | 11 :: kind :: rest => (Some (ONodeKind kind), rest)
+  (* deletions delivered as informer tombstones are the same events for the model *)
+  | 12 :: p :: rest => (Some (OPodDelete p), rest)
+  | 13 :: rest => (Some ODeviceDelete, rest)
   | _ => (None, [])
   end.
 Fixpoint dec_ops (n : nat) (l : list Z) : list op :=
